@@ -594,6 +594,14 @@ fn replay(ctx: &Ctx, path: &std::path::Path) -> i32 {
     if !r["wire"].is_null() {
         return replay_wire(ctx, r);
     }
+    if r["events_world"] == true {
+        let mut report = Report::new();
+        if let Err(e) = super::evw::replay_part(r, "C13", super::evw::is_c13, &mut report) {
+            eprintln!("MACHINERY: {}", e);
+            return 2;
+        }
+        return common::finish(ctx, report, Evidence::new("model_checking"));
+    }
     let ops: Vec<Op> = r["ops"].as_array().unwrap().iter().map(|o| op_from(o.as_str().unwrap())).collect();
     std::env::set_var("MC_SHOW_PANICS", "1");
     let mut report = Report::new();
@@ -692,7 +700,15 @@ pub fn run(ctx: &Ctx) -> i32 {
         eprintln!("MACHINERY: vacuous C13 wire-level run ({} outcome classes)", wire_classes);
         return 2;
     }
+    let events_part = match super::evw::run_part(ctx.tier, "C13", super::evw::is_c13, &mut report) {
+        Ok(v) => v,
+        Err(e) => {
+            eprintln!("MACHINERY: {}", e);
+            return 2;
+        }
+    };
     let mut ev = Evidence::new("model_checking");
+    ev.set("events_wire_level", events_part);
     ev.set("wire_level", json!({"executions": wire_execs, "distinct_observations": wire_obs, "outcome_classes": wire_classes, "capped": wire_capped, "deviation_bound_completed": (if ctx.tier == Tier::Quick { 2 } else { 3 }) - wire_capped as usize, "rule": "real publisher + subscriber + writer: every schedule with at most 2 (thorough: 3) non-default adversary decisions (drop / duplicate / reorder a datagram between publisher and subscriber, timer first, the writer changes the attribute now) during the first 20 s, with a single-chunk and a three-chunk priming report, one and two changes; FIFO afterwards until 60 s"}))
         .set("states", json!(stats.states))
         .set("transitions", json!(stats.transitions))
